@@ -103,13 +103,17 @@ Bm22Step(bm, acc, cfgs, n, e) ==
             IF stack /\ d[1] % 16 # 0 THEN ko("data transfer format indicator is not 0")
             ELSE IF stack /\ seqn # c.nxt THEN ko("data segment out of sequence")
             ELSE IF stack /\ seqn > c.hi THEN ko("data segment not cleared by a CTS")
-            ELSE IF stack /\ c.bam /\ gap < cfgs[n].bamInt THEN ko("BAM data segments closer than the minimum interval")
-            ELSE IF stack /\ ~c.bam /\ cfgs[n].cmdtInt >= 0 /\ c.lastDt >= 0 /\ gap < cfgs[n].cmdtInt
-                 THEN (IF c.fresh THEN ko("connection-mode data segments closer than the configured minimum interval (first segment after a CTS)")
-                       ELSE ko("connection-mode data segments closer than the configured minimum interval (within a window)"))
-            ELSE IF stack /\ c.bam /\ cfgs[n].paceMax >= 0 /\ gap > cfgs[n].paceMax THEN ko("BAM data segments further apart than allowed")
-            ELSE IF stack /\ seqn < c.total /\ Len(d) # 64 THEN ko("intermediate data segment is not 64 bytes long")
-            ELSE ok(BPut(bm, c2))
+            ELSE
+            LET \* clauses about WHEN the segment is sent do not stop the monitor from following the connection
+                late == IF stack /\ c.bam /\ gap < cfgs[n].bamInt THEN {"BAM data segments closer than the minimum interval"}
+                        ELSE IF stack /\ ~c.bam /\ cfgs[n].cmdtInt >= 0 /\ c.lastDt >= 0 /\ gap < cfgs[n].cmdtInt
+                        THEN (IF c.fresh THEN {"connection-mode data segments closer than the configured minimum interval (first segment after a CTS)"}
+                              ELSE {"connection-mode data segments closer than the configured minimum interval (within a window)"})
+                        ELSE IF stack /\ c.bam /\ cfgs[n].paceMax >= 0 /\ gap > cfgs[n].paceMax THEN {"BAM data segments further apart than allowed"}
+                        ELSE {}
+            IN
+            IF stack /\ seqn < c.total /\ Len(d) # 64 THEN ko("intermediate data segment is not 64 bytes long")
+            ELSE [bm |-> BPut(bm, c2), bad |-> late]
 \* at the end of a scenario: every accepted parameter group of <= 60 bytes has been on the bus exactly once
 Bm22Final(bm, acc, tr) ==
     IF tr.expect.all /\ \E i \in 1..Len(acc) : Len(acc[i].data) <= 60 /\ i \notin Seen(bm)
